@@ -2,8 +2,11 @@ package rules
 
 import (
 	"fmt"
+	"go/constant"
 	"go/token"
+	"go/types"
 	"regexp"
+	"sort"
 	"strings"
 
 	"golang.org/x/tools/go/ssa"
@@ -23,6 +26,13 @@ import (
 var vsCallee = regexp.MustCompile(`(^|[.:])[vV]erify[A-Za-z0-9]*$`)
 
 // vsExempt: call sites where dropping the failing element is the specified behaviour. Key: "caller → callee".
+// vsTrial: exemptions that only cover a *trial* verification, i.e. a call inside a loop over candidates whose failure
+// moves on to the next candidate. A verification outside any loop in the same function is not covered.
+var vsTrial = map[string]bool{
+	"core/bcast.Broadcaster.Broadcast → tbls.Verify": true,
+	"app/obolapi.Client.GetFullExit → tbls.Verify":   true,
+}
+
 var vsExempt = map[string]string{
 	"app.filterVerifiedRegistrations → app.verifyRegistrationSignature": "filter: registrations that do not verify are skipped and never reach the returned list (the append is on the nil edge)",
 	"core/bcast.Broadcaster.Broadcast → tbls.Verify":                    "trial verification used as a match predicate (which cluster validator signed this attestation); a non-match moves on to the next candidate, other errors are returned",
@@ -53,11 +63,50 @@ func init() {
 
 var vsMutants = map[string][]Mutant{
 	"C12": {
+		// the one real check of a function that also holds an exempt trial verification
+		{ID: "VS-C12-fullexit-aggregate-verify-logged", File: "app/obolapi/exit.go", Expect: "VS",
+			Old: "\tif err := tbls.Verify(valPubKey, sigData[:], fullSig); err != nil {\n\t\treturn ExitBlob{}, errors.Wrap(err, \"aggregated exit signature failed BLS verification\", z.Str(\"validator_pubkey\", valPubkey))\n\t}",
+			New: "\tif err := tbls.Verify(valPubKey, sigData[:], fullSig); err != nil {\n\t\t_ = errors.Wrap(err, \"aggregated exit signature failed BLS verification\", z.Str(\"validator_pubkey\", valPubkey))\n\t}"},
+		// single-exit form that forgets the verdict on the failing edge
+		{ID: "VS-C12-lock-aggregate-verdict-dropped", File: "cluster/lock.go", Expect: "VS",
+			Old: "\terr = tbls.VerifyAggregate(pubkeys, sig, hash[:])\n\tif err != nil {\n\t\treturn errors.Wrap(err, \"verify lock signature aggregate\")\n\t}\n\n\terr = l.verifyBuilderRegistrations()",
+			New: "\terr = tbls.VerifyAggregate(pubkeys, sig, hash[:])\n\n\terr = l.verifyBuilderRegistrations()"},
+		// a predicate with a boolean result that still answers true after a failed verification
+		{ID: "VS-C12-enr-verify-switch-falls-through", File: "eth2util/enr/enr.go", Expect: "VS",
+			Old: "\tif err := verify(r.PubKey, r.Signature, rlp.EncodeBytesList(elements[1:])); err != nil {\n\t\treturn Record{}, err\n\t}",
+			New: "\tswitch err := verify(r.PubKey, r.Signature, rlp.EncodeBytesList(elements[1:])); {\n\tcase err != nil && len(r.Signature) == 0:\n\t\treturn Record{}, err\n\t}"},
 		{ID: "VS-C12-combine-lock-verify-logged", File: "cmd/createcluster.go", Expect: "VS",
 			Old: "\tif err := def.VerifySignatures(eth1Cl); err != nil {\n\t\treturn cluster.Definition{}, err\n\t}\n\n\tif err := def.VerifyHashes(); err != nil {\n\t\treturn cluster.Definition{}, err\n\t}\n\n\tif def.NumValidators == 0 {",
 			New: "\tif err := def.VerifySignatures(eth1Cl); err != nil {\n\t\tlog.Warn(ctx, \"Definition signature verification failed\", err)\n\t}\n\n\tif err := def.VerifyHashes(); err != nil {\n\t\treturn cluster.Definition{}, err\n\t}\n\n\tif def.NumValidators == 0 {"},
 	},
+	"C05": {
+		// the limit check only rejects in a corner case
+		{ID: "VS-C05-limits-condition-weakened", File: "core/consensus/qbft/qbft.go", Expect: "VS",
+			Old: "\tif err := verifyMsgLimits(pbMsg, len(c.pubkeys)); err != nil {", New: "\tif err := verifyMsgLimits(pbMsg, len(c.pubkeys)); err != nil && len(c.pubkeys) == 0 {"},
+	},
+	"C10": {
+		// invalid partial signatures are skipped instead of rejecting the set
+		{ID: "VS-C10-parsigex-verify-skip-invalid", File: "core/parsigex/parsigex.go", Expect: "VS",
+			Old: "\t\tif err = m.verifyFunc(ctx, sender, duty, pubkey, data); err != nil {\n\t\t\treturn nil, false, errors.Wrap(err, \"invalid partial signature\")\n\t\t}",
+			New: "\t\tif err = m.verifyFunc(ctx, sender, duty, pubkey, data); err != nil {\n\t\t\tlog.Warn(ctx, \"Invalid partial signature\", err)\n\n\t\t\tcontinue\n\t\t}"},
+	},
+	"C13": {
+		// one class of verification failures is let through
+		{ID: "VS-C13-server-verify-tolerated", File: "dkg/bcast/server.go", Expect: "VS",
+			Old: "\tif err := s.verifyFunc(msg.GetId(), msg.GetMessage(), msg.GetSignatures()); err != nil {", New: "\tif err := s.verifyFunc(msg.GetId(), msg.GetMessage(), msg.GetSignatures()); err != nil && !errors.Is(err, context.Canceled) {"},
+	},
+	"C09": {
+		// the verdict is overwritten by the next call before it is tested
+		{ID: "VS-C09-sigagg-verdict-overwritten", File: "core/sigagg/sigagg.go", Expect: "VS",
+			Old: "\t\terr = core.VerifyEth2SignedData(ctx, eth2Cl, eth2Signed, tblsPubkey)\n\t\tif err != nil {", New: "\t\terr = core.VerifyEth2SignedData(ctx, eth2Cl, eth2Signed, tblsPubkey)\n\t\t_, err = eth2Signed.MessageRoot()\n\t\tif err != nil {"},
+	},
 	"C11": {
+		// a particular failure is tolerated and the flow continues
+		{ID: "VS-C11-agg-lockhash-tolerates-mismatch", File: "dkg/dkg.go", Expect: "VS",
+			Old: "\t\terr = tbls.VerifyAggregate(aggPkLockHash, aggSigLockHash, lock.LockHash)\n\t\tif err != nil {", New: "\t\terr = tbls.VerifyAggregate(aggPkLockHash, aggSigLockHash, lock.LockHash)\n\t\tif err != nil && !errors.Is(err, tbls.ErrSigNotVerified) {"},
+		// tested through a named boolean, but the failing branch only logs
+		{ID: "VS-C11-peer-duplicates-named-bool-logged", File: "dkg/protocol.go", Expect: "VS",
+			Old: "\tif err := verifyPeerDuplicates(peers); err != nil {\n\t\treturn err\n\t}", New: "\tdupErr := verifyPeerDuplicates(peers)\n\tif failed := dupErr != nil; failed {\n\t\tlog.Warn(ctx, \"Duplicate peers\", dupErr)\n\t}"},
 		{ID: "VS-C11-nodesig-verify-logged", File: "dkg/nodesigs.go", Expect: "VS",
 			Old: "\tverified, err := k1util.Verify65(peerPubk, lockHash, sig)\n\tif err != nil {\n\t\treturn errors.Wrap(err, \"verify node signature\")",
 			New: "\tverified, err := k1util.Verify65(peerPubk, lockHash, sig)\n\tif err != nil && len(sig) == 0 {\n\t\treturn errors.Wrap(err, \"verify node signature\")"},
@@ -89,7 +138,8 @@ func verifySweep(c *rt.Ctx, prop string) {
 			if sp == nil {
 				continue
 			}
-			for _, fn := range an.PkgFuncs(sp) {
+			fns := an.PkgFuncs(sp)
+			for _, fn := range fns {
 				if strings.HasSuffix(c.P.Fset.Position(fn.Pos()).Filename, "testutils.go") {
 					continue
 				}
@@ -112,102 +162,572 @@ func verifySweep(c *rt.Ctx, prop string) {
 					if !hasErr {
 						continue
 					}
-					key := an.FuncName(fn) + " → " + strings.TrimPrefix(strings.TrimPrefix(name, "field:"), "iface:")
+					callee := strings.TrimPrefix(strings.TrimPrefix(name, "field:"), "iface:")
+					key := an.FuncName(fn) + " → " + callee
 					ordinal[key]++
 					k := key
 					if ordinal[key] > 1 {
 						k = fmt.Sprintf("%s #%d", key, ordinal[key])
 					}
-					if why, ok := vsExempt[key]; ok {
-						c.Good(k, call.Pos(), "exempt: "+why)
-						continue
+					st, why := vsChecked(fn, call)
+					if st != 0 {
+						// reasoned exemptions apply only to sites that do tolerate a failed verification
+						if ex, ok := vsExemptFor(fn, call, callee, fns, 0); ok {
+							c.Good(k, call.Pos(), "exempt: "+ex)
+							continue
+						}
 					}
-					ok2, why := vsChecked(fn, call)
-					c.Check(k, call.Pos(), ok2, why)
+					switch st {
+					case 0:
+						c.Good(k, call.Pos(), why)
+					case 1:
+						c.Unsure(k, call.Pos(), why)
+					default:
+						c.Bad(k, call.Pos(), why)
+					}
 				}
 			}
 		}
 	})
 }
 
-// vsChecked: the error verdict of call is returned, or branched on with a failing edge that cannot reach
-// a success return of fn.
-func vsChecked(fn *ssa.Function, call *ssa.Call) (bool, string) {
-	errs, _ := an.StatusOf(call, -1)
-	if len(errs) == 0 {
-		return false, "the error result of the verification is discarded"
-	}
-	// a verdict assigned to a captured / address-taken variable is read back through a load in the same block
-	for _, e := range append([]ssa.Value{}, errs...) {
-		for _, ref := range *e.Referrers() {
-			st, ok := ref.(*ssa.Store)
-			if !ok || st.Val != e {
-				continue
+// vsExemptFor: the call site is exempt when its function is listed for this callee, or when the function is a
+// literal inside / an unexported helper only called (statically, in its package) from functions that are.
+func vsExemptFor(fn *ssa.Function, call *ssa.Call, callee string, pkgFns []*ssa.Function, d int) (string, bool) {
+	if why, ok := vsExempt[an.FuncName(fn)+" → "+callee]; ok {
+		if vsTrial[an.FuncName(fn)+" → "+callee] && call != nil {
+			inLoop := false
+			for _, sc := range call.Block().Succs {
+				if an.CanReach(sc, call.Block(), nil) {
+					inLoop = true
+				}
 			}
-			seen := false
-			for _, in := range st.Block().Instrs {
-				if in == ssa.Instruction(st) {
-					seen = true
-					continue
-				}
-				if !seen {
-					continue
-				}
-				if s2, ok := in.(*ssa.Store); ok && s2.Addr == st.Addr {
-					break
-				}
-				if ld, ok := in.(*ssa.UnOp); ok && ld.Op == token.MUL && ld.X == st.Addr {
-					errs = append(errs, ld)
-				}
+			if !inLoop {
+				return "", false
 			}
 		}
+		return why, true
 	}
-	for _, e := range errs {
-		// tail position: returned as the function's verdict (possibly wrapped is handled by the branch form)
-		for _, r := range an.Returns(fn) {
-			for _, v := range returnValues(r) {
-				if v == e {
-					return true, ""
-				}
-			}
-		}
-		conds := an.CondsOn(fn, e)
-		branched := false
-		for _, cd := range conds {
-			if cd.Other == nil || !an.IsNilConst(cd.Other) || (cd.Op != token.EQL && cd.Op != token.NEQ) {
-				continue
-			}
-			branched = true
-			fail := cd.Succ(cd.Op != token.EQL) // the err != nil edge
-			if !an.Dominates(call, cd.If) {
-				continue
-			}
-			reach := false
-			for b := range an.ReachBlocks(fail, map[*ssa.BasicBlock]bool{call.Block(): true}) {
-				r, ok := b.Instrs[len(b.Instrs)-1].(*ssa.Return)
-				if !ok {
-					continue
-				}
-				hasErr := false
-				for _, v := range returnValues(r) {
-					if an.IsErrorType(v.Type()) {
-						hasErr = true
-						if an.IsNilConst(v) {
-							reach = true
-						}
+	if d > 3 {
+		return "", false
+	}
+	if fn.Parent() != nil {
+		return vsExemptFor(fn.Parent(), nil, callee, pkgFns, d+1)
+	}
+	if fn.Object() != nil && fn.Object().Exported() {
+		return "", false
+	}
+	why, n := "", 0
+	for _, g := range pkgFns {
+		for _, in := range an.Instrs(g, false) {
+			used := false
+			if ci, ok := in.(ssa.CallInstruction); ok && an.Orig(ci.Common().StaticCallee()) == an.Orig(fn) {
+				used = true
+			} else {
+				for _, op := range an.Operands(in) {
+					if f, ok := op.(*ssa.Function); ok && an.Orig(f) == an.Orig(fn) {
+						return "", false // used as a value: callers unknown
 					}
 				}
-				if !hasErr && fn.Signature.Results().Len() > 0 {
-					reach = true
-				}
 			}
-			if !reach {
-				return true, ""
+			if !used {
+				continue
 			}
-		}
-		if branched {
-			return false, "after a failed verification control can still reach a success return (verdict logged/ignored or condition weakened)"
+			w, ok := vsExemptFor(g, nil, callee, pkgFns, d+1)
+			if !ok {
+				return "", false
+			}
+			why = w
+			n++
 		}
 	}
-	return false, "the verification verdict is neither returned nor branched on"
+	if n == 0 {
+		return "", false
+	}
+	return why + " (helper only used by the exempt caller)", true
+}
+
+// ---------------------------------------------------------------------------------------------------------------
+// vsChecked decides one verification call by a path search: starting right after the call, walk every CFG path on
+// which the verdict is not known to be nil. A nil test of the verdict (any spelling: `err != nil`, `err == nil`,
+// negated, through a named bool, a spilled variable, a phi with the zero value, a switch) ends the path on its nil
+// edge and continues on its non-nil edge. The site is a violation if such a path reaches a *success exit* of the
+// function: a return whose error result is the constant nil (or, for a predicate without error result, the constant
+// true); in a function without results: the continuation taken when the verdict is nil. Returning the verdict (or an
+// error derived from it) is fine; re-executing the call starts a new verification. Verdicts that escape (stored
+// into a field, sent, appended) and tests hidden in helper predicates make the site undecided instead.
+// status: 0 ok, 1 undecided, 2 violation.
+
+type vsWalk struct {
+	fn             *ssa.Function
+	call           *ssa.Call
+	errIdx         int
+	boolIdx        int
+	steps          int
+	seen           map[string]bool
+	anyTest        bool
+	escapedAny     bool
+	returnsVerdict bool
+	// outcome
+	bad, unsure string
+}
+
+type vsState struct {
+	alias   map[ssa.Value]bool      // values that are non-nil exactly when the verdict is
+	derived map[ssa.Value]bool      // tuples returned by a call that was fed the verdict
+	opaque  map[ssa.Value]bool      // booleans computed from the verdict by an in-repo helper
+	env     map[ssa.Value]ssa.Value // loads and phis resolved on this path
+	slots   map[*ssa.Alloc]ssa.Value
+	tested  bool
+	tainted bool
+	escaped bool
+	pass    *ssa.BasicBlock // function without results: where control goes when the verdict is nil
+}
+
+func (s *vsState) clone() *vsState {
+	n := &vsState{alias: map[ssa.Value]bool{}, derived: map[ssa.Value]bool{}, opaque: map[ssa.Value]bool{}, env: map[ssa.Value]ssa.Value{},
+		slots: map[*ssa.Alloc]ssa.Value{}, tested: s.tested, tainted: s.tainted, escaped: s.escaped, pass: s.pass}
+	for k, v := range s.alias {
+		n.alias[k] = v
+	}
+	for k, v := range s.derived {
+		n.derived[k] = v
+	}
+	for k, v := range s.opaque {
+		n.opaque[k] = v
+	}
+	for k, v := range s.env {
+		n.env[k] = v
+	}
+	for k, v := range s.slots {
+		n.slots[k] = v
+	}
+	return n
+}
+
+func (s *vsState) key(b *ssa.BasicBlock) string {
+	var parts []string
+	for v := range s.alias {
+		parts = append(parts, fmt.Sprintf("a%p", v))
+	}
+	for a, v := range s.slots {
+		if _, isC := v.(*ssa.Const); isC || s.alias[v] {
+			parts = append(parts, fmt.Sprintf("s%p=%p", a, v))
+		}
+	}
+	for v := range s.opaque {
+		parts = append(parts, fmt.Sprintf("o%p", v))
+	}
+	sort.Strings(parts)
+	return fmt.Sprintf("%d|%v%v%v|%p|%s", b.Index, s.tested, s.tainted, s.escaped, s.pass, strings.Join(parts, ","))
+}
+
+// res resolves a value on the current path (conversions, boxing, loads of tracked locals, phis already entered).
+func (s *vsState) res(v ssa.Value) ssa.Value {
+	for i := 0; i < 24; i++ {
+		if w, ok := s.env[v]; ok && w != v {
+			v = w
+			continue
+		}
+		u := an.Unwrap(v)
+		if u != v {
+			// keep boxed concrete errors distinguishable from nil
+			if _, isMI := v.(*ssa.MakeInterface); isMI {
+				return v
+			}
+			v = u
+			continue
+		}
+		return v
+	}
+	return v
+}
+
+func (s *vsState) isAlias(v ssa.Value) bool { return s.alias[v] || s.alias[s.res(v)] }
+
+func vsChecked(fn *ssa.Function, call *ssa.Call) (int, string) {
+	errs, _ := an.StatusOf(call, -1)
+	if len(errs) == 0 {
+		return 2, "the error result of the verification is discarded"
+	}
+	w := &vsWalk{fn: fn, call: call, errIdx: an.ErrIndex(fn.Signature), boolIdx: -1, seen: map[string]bool{}}
+	if w.errIdx < 0 {
+		rs := fn.Signature.Results()
+		for i := 0; i < rs.Len(); i++ {
+			if b, ok := rs.At(i).Type().Underlying().(*types.Basic); ok && b.Kind() == types.Bool {
+				w.boolIdx = i
+			}
+		}
+	}
+	st := &vsState{alias: map[ssa.Value]bool{}, derived: map[ssa.Value]bool{}, opaque: map[ssa.Value]bool{}, env: map[ssa.Value]ssa.Value{}, slots: map[*ssa.Alloc]ssa.Value{}}
+	for _, e := range errs {
+		st.alias[e] = true
+	}
+	idx := 0
+	for i, in := range call.Block().Instrs {
+		if in == ssa.Instruction(call) {
+			idx = i + 1
+		}
+	}
+	w.walk(call.Block(), idx, st)
+	switch {
+	case w.bad != "":
+		return 2, w.bad
+	case w.unsure != "":
+		return 1, w.unsure
+	case !w.anyTest && !w.returnsVerdict:
+		if w.escapedAny {
+			return 1, "the verdict is stored / sent / collected and never tested in the function that ran the verification"
+		}
+		return 2, "the verification verdict is neither returned nor branched on"
+	}
+	return 0, ""
+}
+
+func (w *vsWalk) fail(s *vsState, msg string) {
+	if s.tainted || s.escaped {
+		if w.unsure == "" {
+			if s.escaped {
+				w.unsure = "the verdict is stored / sent / collected and checked elsewhere; on a path to a success exit it is not tested locally"
+			} else {
+				w.unsure = "the verdict is tested by a helper predicate the rule does not evaluate; " + msg
+			}
+		}
+		return
+	}
+	if w.bad == "" {
+		w.bad = msg
+	}
+}
+
+func (w *vsWalk) walk(b *ssa.BasicBlock, from int, s *vsState) {
+	if w.bad != "" {
+		return
+	}
+	w.steps++
+	if w.steps > 60000 {
+		if w.unsure == "" {
+			w.unsure = "path search exceeded its budget"
+		}
+		return
+	}
+	for i := from; i < len(b.Instrs); i++ {
+		switch x := b.Instrs[i].(type) {
+		case *ssa.Store:
+			val := s.res(x.Val)
+			if al, ok := x.Addr.(*ssa.Alloc); ok {
+				s.slots[al] = val
+			} else if s.alias[val] {
+				s.escaped = true
+			}
+		case *ssa.UnOp:
+			if x.Op == token.MUL {
+				if al, ok := x.X.(*ssa.Alloc); ok {
+					if v, ok := s.slots[al]; ok {
+						s.env[x] = v
+					}
+				}
+			}
+		case *ssa.Extract:
+			if s.derived[x.Tuple] && an.IsErrorType(x.Type()) {
+				s.alias[x] = true
+			}
+		case *ssa.Send:
+			if s.isAlias(x.X) {
+				s.escaped = true
+			}
+		case *ssa.MapUpdate:
+			if s.isAlias(x.Value) {
+				s.escaped = true
+			}
+		case *ssa.Go:
+			for _, a := range x.Call.Args {
+				if s.isAlias(a) {
+					s.escaped = true
+				}
+			}
+		case *ssa.Defer:
+			for _, a := range x.Call.Args {
+				if s.isAlias(a) {
+					s.escaped = true
+				}
+			}
+		case *ssa.Call:
+			w.visitCall(x, s)
+		}
+		if s.escaped {
+			w.escapedAny = true
+		}
+		switch x := b.Instrs[i].(type) {
+		case *ssa.Return:
+			w.visitReturn(x, s)
+			return
+		case *ssa.Panic:
+			return
+		case *ssa.If:
+			w.visitIf(b, x, s)
+			return
+		case *ssa.Jump:
+			w.enter(b, b.Succs[0], s)
+			return
+		}
+	}
+	// blocks always end in a control instruction; select/range "next" blocks fall here only if malformed
+	for _, sc := range b.Succs {
+		w.enter(b, sc, s.clone())
+	}
+}
+
+func (w *vsWalk) visitCall(x *ssa.Call, s *vsState) {
+	fed := false
+	for _, a := range x.Call.Args {
+		if s.isAlias(a) {
+			fed = true
+		}
+	}
+	if !fed {
+		return
+	}
+	if b, ok := x.Call.Value.(*ssa.Builtin); ok {
+		if b.Name() == "append" {
+			s.escaped = true
+		}
+		return
+	}
+	name := an.CalleeName(&x.Call)
+	res := x.Call.Signature().Results()
+	for i := 0; i < res.Len(); i++ {
+		t := res.At(i).Type()
+		switch {
+		case an.IsErrorType(t):
+			// an error computed from the verdict (wrap, annotate, translate): carries the verdict on
+			if res.Len() == 1 {
+				s.alias[x] = true
+			} else {
+				s.derived[x] = true
+			}
+		case res.Len() == 1 && isBool(t):
+			switch name {
+			case "errors.Is", "errors.As", "app/errors.Is", "app/errors.As":
+				// a test for one particular error: says nothing about nil-ness on the false edge
+			default:
+				s.opaque[x] = true
+			}
+		}
+	}
+}
+
+func vsErrConstructor(c *ssa.CallCommon) bool {
+	switch an.CalleeName(c) {
+	case "app/errors.New", "app/errors.Wrap", "app/errors.SkipWrap", "app/errors.NewSentinel", "errors.New", "fmt.Errorf", "errors.Join":
+		return true
+	}
+	return false
+}
+
+func isBool(t types.Type) bool {
+	b, ok := t.Underlying().(*types.Basic)
+	return ok && b.Kind() == types.Bool
+}
+
+// nilTest decodes cond as a nil test of the verdict: returns the successor index taken when the verdict is nil.
+func (w *vsWalk) nilTest(cond ssa.Value, s *vsState) (nilSucc int, ok bool) {
+	neg := false
+	for i := 0; i < 6; i++ {
+		cond = s.res(cond)
+		u, isNot := cond.(*ssa.UnOp)
+		if !isNot || u.Op != token.NOT {
+			break
+		}
+		cond, neg = u.X, !neg
+	}
+	bin, isBin := cond.(*ssa.BinOp)
+	if !isBin || (bin.Op != token.EQL && bin.Op != token.NEQ) {
+		return 0, false
+	}
+	x, y := s.res(bin.X), s.res(bin.Y)
+	switch {
+	case s.alias[x] && an.IsNilConst(y):
+	case s.alias[y] && an.IsNilConst(x):
+	default:
+		// comparison against a boolean constant of a nil test: (err == nil) == false ...
+		if k, isK := y.(*ssa.Const); isK && k.Value != nil && k.Value.Kind() == constant.Bool {
+			if ns, ok := w.nilTest(x, s); ok {
+				eq := bin.Op == token.EQL
+				if constant.BoolVal(k.Value) != eq {
+					ns = 1 - ns
+				}
+				if neg {
+					ns = 1 - ns
+				}
+				return ns, true
+			}
+		}
+		return 0, false
+	}
+	condTrueMeansNil := bin.Op == token.EQL
+	if neg {
+		condTrueMeansNil = !condTrueMeansNil
+	}
+	if condTrueMeansNil {
+		return 0, true
+	}
+	return 1, true
+}
+
+func (w *vsWalk) dependsOnOpaque(cond ssa.Value, s *vsState) bool {
+	for i := 0; i < 6; i++ {
+		cond = s.res(cond)
+		if s.opaque[cond] {
+			return true
+		}
+		u, ok := cond.(*ssa.UnOp)
+		if !ok || u.Op != token.NOT {
+			return false
+		}
+		cond = u.X
+	}
+	return false
+}
+
+func (w *vsWalk) visitIf(b *ssa.BasicBlock, x *ssa.If, s *vsState) {
+	if ns, ok := w.nilTest(x.Cond, s); ok && b.Succs[0] != b.Succs[1] {
+		w.anyTest = true
+		n := s.clone()
+		n.tested = true
+		if n.pass == nil && w.fn.Signature.Results().Len() == 0 {
+			n.pass = b.Succs[ns]
+		}
+		w.enter(b, b.Succs[1-ns], n)
+		return
+	}
+	// a boolean constant held in a tracked local / phi decides the branch
+	if k, ok := s.res(x.Cond).(*ssa.Const); ok && k.Value != nil && k.Value.Kind() == constant.Bool {
+		if constant.BoolVal(k.Value) {
+			w.enter(b, b.Succs[0], s)
+		} else {
+			w.enter(b, b.Succs[1], s)
+		}
+		return
+	}
+	taint := w.dependsOnOpaque(x.Cond, s)
+	if taint {
+		w.anyTest = true
+	}
+	for _, sc := range b.Succs {
+		n := s.clone()
+		if taint {
+			n.tainted = true
+		}
+		w.enter(b, sc, n)
+	}
+}
+
+func (w *vsWalk) enter(from, to *ssa.BasicBlock, s *vsState) {
+	if w.bad != "" {
+		return
+	}
+	if to == w.call.Block() {
+		return // the verification is executed again: a new verdict
+	}
+	if s.pass != nil && to == s.pass && s.tested {
+		w.fail(s, "after a failed verification control continues where it continues after a successful one (verdict logged/ignored)")
+		return
+	}
+	// select the phi values by the incoming edge
+	pi := -1
+	for i, p := range to.Preds {
+		if p == from {
+			pi = i
+		}
+	}
+	for _, in := range to.Instrs {
+		phi, ok := in.(*ssa.Phi)
+		if !ok {
+			break
+		}
+		if pi < 0 || pi >= len(phi.Edges) {
+			continue
+		}
+		v := s.res(phi.Edges[pi])
+		s.env[phi] = v
+		if s.alias[v] {
+			s.alias[phi] = true
+		} else {
+			delete(s.alias, phi)
+		}
+	}
+	k := s.key(to)
+	if w.seen[k] {
+		return
+	}
+	w.seen[k] = true
+	w.walk(to, 0, s)
+}
+
+func (w *vsWalk) visitReturn(r *ssa.Return, s *vsState) {
+	if w.fn.Recover != nil && r.Block() == w.fn.Recover {
+		return
+	}
+	switch {
+	case w.errIdx >= 0 && w.errIdx < len(r.Results):
+		e := s.res(r.Results[w.errIdx])
+		if s.alias[e] {
+			w.returnsVerdict = true
+			return
+		}
+		if an.IsNilConst(e) {
+			if s.tested {
+				w.fail(s, "after a failed verification control can still reach a success return (verdict logged/ignored or condition weakened)")
+			} else {
+				w.fail(s, "a path from the verification reaches a success return without testing the verdict")
+			}
+			return
+		}
+		// `return next(...)`: an unrelated call's error, which may be nil
+		var rc *ssa.Call
+		switch y := e.(type) {
+		case *ssa.Call:
+			rc = y
+		case *ssa.Extract:
+			rc, _ = y.Tuple.(*ssa.Call)
+		}
+		if rc != nil && vsCallee.MatchString(an.CalleeName(&rc.Call)) {
+			return // the verdict of another verification (swept at its own site) decides instead: either-or checks
+		}
+		if rc != nil && !s.derived[rc] && !vsErrConstructor(&rc.Call) {
+			if !s.tested {
+				w.fail(s, "a path from the verification returns the result of another call without ever testing the verdict")
+			} else if w.unsure == "" && w.bad == "" {
+				w.unsure = "after a failed verification the function returns the result of an unrelated call, which may be nil"
+			}
+		}
+	case w.boolIdx >= 0 && w.boolIdx < len(r.Results):
+		v := s.res(r.Results[w.boolIdx])
+		if k, ok := v.(*ssa.Const); ok && k.Value != nil && k.Value.Kind() == constant.Bool {
+			if constant.BoolVal(k.Value) {
+				if s.tested {
+					w.fail(s, "after a failed verification the predicate can still return true")
+				} else {
+					w.fail(s, "a path from the verification returns true without testing the verdict")
+				}
+			}
+			return
+		}
+		if _, ok := w.nilTest(v, s); ok {
+			w.returnsVerdict = true
+			return // returns `err == nil` itself
+		}
+		if w.unsure == "" {
+			w.unsure = "the boolean returned after the verification is computed in a way the rule does not follow"
+		}
+	case w.fn.Signature.Results().Len() == 0:
+		// decided by the pass-continuation criterion in enter()
+	default:
+		if s.tested || !w.anyTest {
+			if w.unsure == "" {
+				w.unsure = "the enclosing function has neither an error nor a boolean result: cannot tell a success exit from a failure exit"
+			}
+		}
+	}
 }
